@@ -2,6 +2,7 @@
 """Systematic mutation survey of the checks (complements the seeded changes of section 9).
 
   mutate.py gen  <n-per-group> <seed>       -> mutation/candidates.json
+  mutate.py more <n-per-group> <seed>       -> appends a further batch on lines not mutated before
   mutate.py run  <lanes> [<first> <last>]   -> mutation/results.jsonl (appends; resumes)
   mutate.py report                          -> summary table
 
@@ -45,6 +46,12 @@ OPS = [
     (r"\btrue\b", "false"), (r"\bfalse\b", "true"), (r"\bsaturating_add\b", "wrapping_add"), (r"\bsaturating_sub\b", "wrapping_sub"),
     (r"\b0\.0\b", "1.0"), (r"\b1\.0\b", "0.5"), (r"\.min\(", ".max("), (r"\.max\(", ".min("), (r"\.is_none\(\)", ".is_some()"), (r"\.is_some\(\)", ".is_none()"),
     (r"\bSome\((\w+)\)\b", r"None /*\1*/"),
+    # second batch: slips of the copy-and-paste kind
+    (r"\bclient\.", "server."), (r"\bserver\.", "client."), (r"\.round\(\)", ".floor()"), (r"\.round\(\)", ".ceil()"),
+    (r"\[mi\]", "[0]"), (r"(?<=\w) \* (?=\w)", " / "), (r"\bSTATE_END\b", "STATE_SIGNAL"), (r"\bSTATE_SIGNAL\b", "STATE_END"),
+    (r"\bTimer::Action\b", "Timer::Internal"), (r"\bTimer::Internal\b", "Timer::Action"), (r"\bbypass\b", "replace"), (r"\breplace\b", "bypass"),
+    (r"\bcounter_a\b", "counter_b"), (r"\bcounter_b\b", "counter_a"), (r"\bpadding_sent\b", "normal_sent"), (r"\bis_client\b", "!is_client"),
+    (r"\bu64::MAX\b", "u32::MAX as u64")
 ]
 
 
@@ -80,9 +87,10 @@ def library_lines(path):
     return lines, out
 
 
-def gen(n_per_group, seed):
+def gen(n_per_group, seed, append=False):
     rnd = random.Random(seed)
-    cands = []
+    cands = json.load(open(f"{OUT}/candidates.json")) if append else []
+    taken = {(c["file"], c["line"]) for c in cands}
     for g, (files, checks) in GROUPS.items():
         sites = []
         for f in files:
@@ -99,7 +107,7 @@ def gen(n_per_group, seed):
                     sites.append({"group": g, "file": f, "line": i + 1, "old": l, "new": l.replace(s, "/* dropped: " + s.replace("*/", "") + " */"), "kind": "drop"})
         rnd.shuffle(sites)
         # at most one mutant per (file, line) to spread the sample
-        seen = set()
+        seen = set(taken)
         picked = []
         for s in sites:
             k = (s["file"], s["line"])
@@ -225,6 +233,8 @@ def report():
 if __name__ == "__main__":
     if sys.argv[1] == "gen":
         gen(int(sys.argv[2]), int(sys.argv[3]))
+    elif sys.argv[1] == "more":
+        gen(int(sys.argv[2]), int(sys.argv[3]), append=True)
     elif sys.argv[1] == "run":
         a = [int(x) for x in sys.argv[3:5]] if len(sys.argv) >= 5 else [None, None]
         run(int(sys.argv[2]), a[0], a[1])
